@@ -30,6 +30,8 @@ Rules (ids):
   C08.finalize-postdominates       trackers.finalize post-dominates all three non-raising exits, exactly once
   C08.t-final-assigned / C08.stop-reason-assigned   on every such exit
   C08.atol-sites                   tracker_atol = 0.5*dt, stepper_atol = 1e-6*dt at every dt-proportional site
+  C08.adaptive-tolerance           the half-step tracker tolerance is confined to fixed stepping; on the adaptive branch the
+                                   tracker tolerance is the small loop tolerance (scheduled times are served exactly)
   C08.storage-pairing              initialize->start_writing, handle->append(time=t), finalize->end_writing
 """
 
@@ -367,7 +369,7 @@ def check_collection(rep: Report, ix) -> None:
 
 
 # ---------------------------------------------------------------------------- Controller
-def atol_sites(rep: Report, g: CFG, ref: str, var: str, role: str, factor: Fraction) -> None:
+def atol_sites(rep: Report, g: CFG, ref: str, var: str, role: str, factor: Fraction, other_var: str | None = None) -> None:
     """every definition of the tolerance variable is factor*dt, or a positive constant
     inside the `dt is None` branch"""
     n_dt = 0
@@ -397,6 +399,28 @@ def atol_sites(rep: Report, g: CFG, ref: str, var: str, role: str, factor: Fract
             if not rep.oblige(f"controller/{role}-constant-site#{n_const}", okc, ast.unparse(e)):
                 rep.violation("C08.atol-sites", f"{ref}::{role}", f"`{var} = {ast.unparse(e)}`: a constant tolerance is only allowed (positive) where dt is unknown", line=n.lineno)
             continue
+        # adaptivity guard: ('adaptive' | 'fixed' | None) from the enclosing `if <adaptive flag>:` branches
+        guard = adaptivity_guard(g, n)
+        if role == "tracker_atol" and guard == "adaptive":
+            # an adaptive stepper stops exactly at the next interrupt: the tracker tolerance must be of the
+            # size of the loop-termination tolerance (the stepper tolerance variable or <= 1e-6 * dt)
+            lf_a = linform(e)
+            small = False
+            if isinstance(e, ast.Name) and other_var is not None and e.id == other_var:
+                small = True
+            elif lf_a is not None and len(lf_a) == 1:
+                (nm_a, co_a), = lf_a.items()
+                small = nm_a != "1" and co_a <= STEPPER_FACTOR
+            n_dt += 1
+            rep.sample({"construct": ref, "role": role, "value": ast.unparse(e), "branch": "adaptive stepping"})
+            if not rep.oblige(f"controller/{role}-adaptive-site#{n_dt}", small, ast.unparse(e)):
+                rep.violation(
+                    "C08.adaptive-tolerance",
+                    f"{ref}::{role}::adaptive-branch",
+                    f"`{var} = {ast.unparse(e)}` on the adaptive-stepping branch: adaptive steppers reach scheduled times exactly, so the tolerance must be the small loop tolerance (<= {float(STEPPER_FACTOR):g} * dt)",
+                    line=n.lineno,
+                )
+            continue
         lf = linform(e)
         good = False
         got = ast.unparse(e)
@@ -417,7 +441,58 @@ def atol_sites(rep: Report, g: CFG, ref: str, var: str, role: str, factor: Fract
         rep.sample({"construct": ref, "role": role, "value": ast.unparse(e), "normal-form": got})
         if not rep.oblige(f"controller/{role}-dt-site#{n_dt}", good, got):
             rep.violation("C08.atol-sites", f"{ref}::{role}", f"`{var} = {ast.unparse(e)}` (the variable in the role of {role}) is {got}, expected {float(factor):g} * dt at every site", line=n.lineno)
+        elif role == "tracker_atol" and guard != "fixed":
+            # half a step is the right tolerance for fixed steps only; an adaptive step can be arbitrarily large,
+            # and trackers with a coarser schedule are then served early (0.9, 1.8, 2.7 instead of 1, 2, 3)
+            rep.oblige(f"controller/{role}-dt-site#{n_dt}: half-step tolerance only for fixed steps", False, "no branch on the solver's adaptivity encloses the assignment")
+            rep.violation(
+                "C08.adaptive-tolerance",
+                f"{ref}::{role}::unguarded-half-step",
+                f"`{var} = {ast.unparse(e)}` is used for every solver: with adaptive stepping `dt` is the current (possibly large) adaptive step, so a tracker is served up to dt/2 "
+                "before its scheduled time although the stepper could reach it exactly (property: 'exactly at it for adaptive steppers')",
+                line=n.lineno,
+            )
     rep.floor(f"{ref}: dt-proportional definitions of {role}", n_dt, 2)
+
+
+def adaptivity_guard(g: CFG, n) -> str | None:
+    """'adaptive' / 'fixed' if the node lies in the body / orelse of an `if <flag>:` whose flag is the
+    solver's adaptivity (a name defined from `<info>.get("dt_adaptive"...)` / `<solver>.adaptive`, or such
+    an expression itself; `not flag` swaps the branches)"""
+
+    def is_flag_expr(e: ast.AST) -> bool:
+        if isinstance(e, ast.Call) and isinstance(e.func, ast.Attribute) and e.func.attr == "get" and e.args and isinstance(e.args[0], ast.Constant) and e.args[0].value == "dt_adaptive":
+            return True
+        if isinstance(e, ast.Subscript) and isinstance(e.slice, ast.Constant) and e.slice.value == "dt_adaptive":
+            return True
+        if isinstance(e, ast.Attribute) and e.attr == "adaptive":
+            return True
+        if isinstance(e, ast.Call) and dotted(e.func) == "getattr" and len(e.args) >= 2 and isinstance(e.args[1], ast.Constant) and e.args[1].value == "adaptive":
+            return True
+        return False
+
+    def flag_polarity(test: ast.AST):
+        neg = False
+        while isinstance(test, ast.UnaryOp) and isinstance(test.op, ast.Not):
+            neg = not neg
+            test = test.operand
+        if is_flag_expr(test):
+            return not neg
+        if isinstance(test, ast.Name):
+            ds = list(g.defs_reaching(n, test.id))
+            vals = [def_value(d, test.id) for d in ds]
+            if vals and all(v[0] == "expr" and is_flag_expr(v[1]) for v in vals):
+                return not neg
+        return None
+
+    for p, fld in g.enclosing(n):
+        if isinstance(p, ast.If) and fld in ("body", "orelse"):
+            pol = flag_polarity(p.test)
+            if pol is None:
+                continue
+            in_true = (fld == "body") == pol
+            return "adaptive" if in_true else "fixed"
+    return None
 
 
 def check_controller(rep: Report, ix) -> None:
@@ -589,7 +664,7 @@ def check_controller(rep: Report, ix) -> None:
 
     # ---- tolerances ---------------------------------------------------------------------------------------
     if "tracker_atol" in atol_vars:
-        atol_sites(rep, g, ref, atol_vars["tracker_atol"], "tracker_atol", TRACKER_FACTOR)
+        atol_sites(rep, g, ref, atol_vars["tracker_atol"], "tracker_atol", TRACKER_FACTOR, atol_vars.get("stepper_atol"))
     if "stepper_atol" in atol_vars:
         atol_sites(rep, g, ref, atol_vars["stepper_atol"], "stepper_atol", STEPPER_FACTOR)
     rep.floor(f"{ref}: tolerance roles identified", len(atol_vars), 1)
